@@ -1,6 +1,8 @@
 /-
   C10 — Header loading accepts exactly magic- and checksum-valid headers.
 -/
+import Mb2.Props.FnsHdrLoad
+import Mb2.Props.FnsHbHdr
 import Mb2.Spec
 import Mb2.Lemmas.Arith
 import Mb2.Lemmas.Common
